@@ -64,6 +64,13 @@ def check_tableform(rep, case, name):
         if x - h < xs[0] or x + h > xs[-1]: continue
         nd = (f1(x + h) - f1(x - h)) / (2 * h)
         if not close(f1.deriv(x), nd, 1e-4, 1e-5 * max(1.0, abs(nd))): rep.dev(name, case, 'deriv(%r)=%r' % (x, f1.deriv(x)), 'slope of the interpolant %r' % nd); return
+    # a second model in the same process: same table-form name, same x grid, other y values -- it is the table of ITS data
+    ys2 = [y * 0.5 + 1.25 for y in ys]
+    b3 = 'x : %s\ny : %s' % (' '.join(repr(v) for v in xs), ' '.join(repr(v) for v in ys2))
+    try: f3 = Configuration().read(io.StringIO(ini(b3))).potentials[0].potentialFunction
+    except Exception as e: rep.dev(name, case, 'second model: exception %r' % (e,), 'a table form'); return
+    for x, y in zip(xs, ys2):
+        if not close(f3(x), y, 1e-9, 1e-10): rep.dev(name, dict(case, second_model=True), 'second model with the same name and x grid: f(%r)=%r' % (x, f3(x)), y); return
     rep.ok(len(xs))
 
 def check_case(rep, case, name):
